@@ -107,6 +107,9 @@ pub struct Interp<'a> {
     pub(crate) step: usize,
     pub(crate) violation: Option<Violation>,
     pub(crate) inconclusive: Option<String>,
+    /// stop interpreting this case without a verdict (the pool did something that belongs
+    /// to a property this engine does not judge and the books cannot follow)
+    pub(crate) skip_rest: bool,
     pub(crate) known: Vec<String>,
     pub(crate) labels: Vec<String>,
     // history facts
@@ -181,6 +184,7 @@ impl<'a> Interp<'a> {
             step: 0,
             violation: None,
             inconclusive: None,
+            skip_rest: false,
             known: Vec::new(),
             labels: Vec::new(),
             close_started: false,
@@ -346,7 +350,7 @@ impl<'a> Interp<'a> {
     pub fn run(mut self) -> Report {
         let steps = self.case.steps.clone();
         for (i, s) in steps.iter().enumerate() {
-            if self.violation.is_some() || self.inconclusive.is_some() {
+            if self.violation.is_some() || self.inconclusive.is_some() || self.skip_rest {
                 break;
             }
             self.step = i;
@@ -358,7 +362,7 @@ impl<'a> Interp<'a> {
             self.n_steps_run += 1;
             self.after_step();
         }
-        if self.violation.is_none() && self.inconclusive.is_none() {
+        if self.violation.is_none() && self.inconclusive.is_none() && !self.skip_rest {
             self.step = steps.len();
             self.finish();
         }
@@ -455,6 +459,7 @@ impl<'a> Interp<'a> {
                 }
             }
             Step::DropPool => self.drop_pool(),
+            Step::GetNoRuntime { zero_wait } => self.get_no_runtime(zero_wait),
             Step::Contend { pred, inner } => self.contend(pred, inner),
         }
     }
@@ -602,6 +607,50 @@ impl<'a> Interp<'a> {
         });
         let g = self.gets.len() - 1;
         self.poll_get(g, pause);
+    }
+
+    /// A call that cannot be honoured (recycle timeout, no runtime). The statement of C10 is
+    /// not judged here; what matters to this engine is that the refused call leaves the pool
+    /// exactly as it was (the invariants after the step see a leaked counter or permit).
+    pub(crate) fn get_no_runtime(&mut self, zero_wait: bool) {
+        let Some(pool) = self.pool.clone() else { return };
+        let op = self.new_op(OpKind::Get);
+        let timeouts = Timeouts {
+            wait: if zero_wait { Some(Duration::ZERO) } else { None },
+            create: None,
+            recycle: Some(Duration::from_millis(10)),
+        };
+        let r = self.sched.run_inline(op, move || {
+            let mut fut: GetFut = Box::pin(async move { pool.timeout_get(&timeouts).await });
+            let waker = Waker::from(WakeFlag::new());
+            let mut cx = Context::from_waker(&waker);
+            match fut.as_mut().poll(&mut cx) {
+                Poll::Ready(r) => Some(r),
+                Poll::Pending => None,
+            }
+        });
+        match r {
+            Err(pk) => self.op_panicked("timeout_get without runtime", pk),
+            Ok(Some(Err(PoolError::NoRuntimeSpecified))) => {
+                let calls = self.world.w().calls.iter().filter(|c| c.op == op).count();
+                if calls == 0 {
+                    self.label("get:refused-without-runtime");
+                    self.saw_fault_get = true;
+                } else {
+                    // it got as far as the manager: objects may have been discarded on the way;
+                    // the ledger follows that, the verdict belongs to C10
+                    self.label("get:refused-without-runtime-after-calls");
+                }
+            }
+            Ok(Some(Err(PoolError::Closed))) if self.close_started || self.close_done => {
+                self.label("get:closed-without-runtime");
+            }
+            Ok(_) => {
+                // not refused (C10's business): the books of this interpreter cannot follow it
+                self.label("skipped:no-runtime-get-not-refused");
+                self.skip_rest = true;
+            }
+        }
     }
 
     pub(crate) fn poll_get(&mut self, g: usize, pause: Option<u8>) {
